@@ -130,6 +130,16 @@ CLAIMS = {
              'tables, LogicSim truth tables) exhaustively.',
         design_ref='5/C19',
         note='The family specification Model/TechlibSpec.v is trusted. Sequential, tristate, clock-gating, isolation, decoder, filler and tie cells get the pin theorems only.'),
+    'C10': dict(
+        technique='differential truth tables / s_nodes order before and after every transformation, all library cell definitions x pin subsets (structure theorems pending from the C09 circuit model)',
+        text='Proof (partial, weakest of the claimed checks). Decided by running the implementation: random circuits x random sequences of '
+             'copy/pickle/eliminate_1to1_forks, six implementation shapes (multi-output, output read internally, unread inputs, fan-out '
+             'inputs) x random connected-pin subsets for substitute, and every cell definition of the five libraries x all pins / random pin '
+             'subsets for resolve_tlib_cells; names/order of ports and state elements and LogicSim truth tables are compared, the expected '
+             'function of an instance coming from an independent evaluation of its implementation circuit. Three call-site specific '
+             'known findings are listed in known_findings.json (D15, D21, D22). Canonical-form theorems for copy/pickle come from the C09 model.',
+        design_ref='5/C10',
+        note='No Coq theorem yet; the semantic theorem for substitute is out of reach in this session.'),
 }
 
 NOT_YET = 'check not built yet in this session (see DESIGN.md section 8 build order); no claim is made'
